@@ -7,6 +7,7 @@ use std::time::Duration;
 use tokio::task::JoinHandle;
 
 pub mod chmux_data;
+pub mod chmux_life;
 
 pub type MuxResult = Result<(), ChMuxError<io::Error, io::Error>>;
 
@@ -183,6 +184,5 @@ pub fn send_err_class(e: &chmux::SendError) -> &'static str {
         chmux::SendError::ChMux => "chmux",
         chmux::SendError::Closed { gracefully: true } => "closed_graceful",
         chmux::SendError::Closed { gracefully: false } => "closed_dropped",
-        _ => "other",
     }
 }
